@@ -14,6 +14,7 @@ DepthOf(s) == IF PDim(s) = 1 THEN DepthCurve ELSE DepthOther
 Views == {"ctrlpts", "weights", "ctrlptsw"}
 Next == /\ Len(hist) < DepthOf(sh0)
         /\ \/ \E k \in 1..2 : ASetCtrlpts(k) \/ ASetWeights(k) \/ ASetCtrlptsW(k)
+           \/ AShrinkCtrlpts(1)
            \/ \E c \in {R(1,2), RI(3)} : AScaleWeights(c)
            \/ \E v \in Views : ARead(v)
 Spec == Init /\ [][Next]_vars
@@ -28,10 +29,11 @@ LastStep == hist'[Len(hist')]
 \* setting the points keeps the weights; reads change nothing
 P_Steps == [][
   LET st == LastStep IN
-  /\ st.a = "scale_weights" => SamePts(obj, obj') /\ ViewCtrlpts(obj') = ViewCtrlpts(obj)
+  /\ st.a = "scale_weights" => (WellFormed(obj) => SamePts(obj, obj')) /\ ViewCtrlpts(obj') = ViewCtrlpts(obj)
   /\ st.a = "set_weights" => ViewCtrlpts(obj') = ViewCtrlpts(obj) /\ ViewWeights(obj') = st.W
   /\ st.a = "set_ctrlpts" => ViewWeights(obj') = ViewWeights(obj) /\ ViewCtrlpts(obj') = st.P
   /\ st.a = "set_ctrlptsw" => ViewCtrlptsW(obj') = st.Pw
+  /\ st.a = "shrink_ctrlpts" => ViewCtrlpts(obj') = st.P /\ Len(ViewWeights(obj')) = Len(st.P)
   /\ st.a = "read" => obj' = obj]_vars
 \* views of the final state, emitted with every history
 EmitViews == hist # <<>> =>
